@@ -102,6 +102,25 @@ def build_cases(ctx):
                         if not quick or rng.random() < 0.45 or (pos, n) == (1, 3):
                             for how in (['boom', 'deep'] if (pos, n) == (1, 3) else ['boom']):
                                 cases.append(make_case(cls, printed, msg, form, want, flags, pos, n, how))
+    # exceptions whose rendering has several lines (a syntax error found while the doctest RUNS carries its location):
+    # the want's final line is compared with the 'Type: message' line, not with the location lines
+    for raising, typ, msg in (("compile('x = = 1', 'f.py', 'exec')", 'SyntaxError', 'invalid syntax'),
+                              ("eval('(1,')", 'SyntaxError', "'(' was never closed"),
+                              ("compile('if 1:\\n  a = 1\\n    b = 2', 'g.py', 'exec')", 'IndentationError', 'unexpected indent')):
+        for flags in flagsets:
+            ied = 'IGNORE_EXCEPTION_DETAIL' in flags
+            for form, final, exp in (('exact', '%s: %s' % (typ, msg), ('pass', None)),
+                                     ('stack', '  File "f.py", line 1\n    x = = 1\n%s: %s' % (typ, msg), ('pass', None)),
+                                     ('wrongtype', 'KeyError: %s' % msg, ('fail', 'gotwant')),
+                                     ('wrongmsg', '%s: something else' % typ, ('pass', None) if ied else ('fail', 'gotwant'))):
+                for pos in (0, 1):
+                    stmts = [gendoc.Stmt('assign', 10 + i) for i in range(3)]
+                    stmts[pos].lines = ['t(%d) and %s' % (10 + pos, raising)]
+                    stmts[pos].is_expr = True
+                    doc = directive_lines(flags) + gendoc.render_doc(stmts, {pos: HDR + '\n' + final})
+                    allk = [st.k for st in stmts]
+                    cases.append(dict(doc=doc, expect=exp, trace=allk if exp[0] == 'pass' else allk[:pos + 1], form='multiline-rendering:' + form,
+                                      flags=flags, cls=typ, msg=msg, pos=pos))
     # a traceback want on code that does not raise must fail
     for flags in flagsets:
         stmts = [gendoc.Stmt('print', 10), gendoc.Stmt('assign', 11)]
